@@ -34,6 +34,11 @@ chk("C09", "model_checking",
     "Trusts baseapp's block gas meter; for a gas target of 0 only absence of failure is required.",
     "exhaustive grid over the real keeper function + exhaustive bounded block histories", "DESIGN.md §5 C09", "seqx-replay")
 
+chk("C10", "model_checking",
+    "Explicit-state breadth-first search over CacheContext branches of the real state: two ERC-20 precompiles, three holders and a forwarder contract; every operation of three alphabets (full: 1042 ops to depth 2, reduced to depth 2/3, tiny to depth 4/8) is executed through the real NewStateDB + NewEVM + evm.Call + CommitMultiStore, states are deduplicated on a canonical dump of all stores, and in every distinct state all views of both tokens and the bank keeper are compared with a map-based reference model; failing calls must leave the canonical state unchanged.",
+    "Keeper-level driving (no ante handler, no fees); state identity ignores auth account numbers; trusts go-ethereum's interpreter and the bank keeper.",
+    "explicit-state BFS over real branch states with reference model, sharded on the first operation", "DESIGN.md §5 C10", "seqx-branch")
+
 NOT_YET = "check not built yet in this round (planned, see DESIGN.md §9)"
 
 def main():
@@ -65,7 +70,9 @@ def main():
             "add_only": True,
         },
         "engines": [
-            {"name": "seqx-replay", "path": "harness/checks", "serves_properties": sorted(CHECKS.keys()),
+            {"name": "seqx-branch", "path": "harness/checks", "serves_properties": [k for k,v in sorted(CHECKS.items()) if v["engine"]=="seqx-branch"],
+             "kind_free_text": "explicit-state BFS below the ABCI level: a state is an sdk.Context over a copy-on-write branch of the real multistore, a transition is one real keeper / EVM call on CacheContext(), dedup on a canonical hash of all stores"},
+            {"name": "seqx-replay", "path": "harness/checks", "serves_properties": [k for k,v in sorted(CHECKS.items()) if v["engine"]=="seqx-replay"],
              "kind_free_text": "explicit-state search over operation sequences on the real application; a state is the block list that reaches it, successors are computed by replay on a fresh app instance; sharded over 16 worker processes"},
         ],
         "checks": checks,
